@@ -63,7 +63,7 @@ package store
 //@   requires (fromIndex <= toIndex ==> 0 <= fromIndex - s.offset && toIndex - s.offset < len(s.bins)) && in64(fromIndex - s.offset) && in64(toIndex - s.offset)
 //@   ensures forall j int :: 0 <= j && j < len(s.bins) ==> s.bins[j] == ((fromIndex - s.offset <= j && j <= toIndex - s.offset) ? 0.0 : old(s.bins[j]))
 //@   modifies arr(s.bins)
-//@   loop 1 invariant fromIndex - s.offset <= i && (fromIndex <= toIndex ==> i <= toIndex - s.offset + 1)
+//@   loop 1 invariant fromIndex - s.offset <= i && (fromIndex <= toIndex ==> i <= toIndex - s.offset + 1) && (fromIndex > toIndex ==> i == fromIndex - s.offset)
 //@   loop 1 invariant forall j int :: 0 <= j && j < len(s.bins) ==> s.bins[j] == ((fromIndex - s.offset <= j && j < i) ? 0.0 : old(s.bins[j]))
 //@   loop 1 decreases toIndex - s.offset + 1 - i
 
@@ -160,8 +160,8 @@ package store
 // KeyAtRank: the first index whose cumulative weight exceeds the rank (negative ranks count as 0);
 // when no index does, the maximum index.
 //@ func DenseStore.KeyAtRank
-//@   serves C04 C01 C11
-//@   requires DInv(s)
+//@   serves C04 C01 C11 C05
+//@   requires DCore(s)
 //@   ensures found: max(rank, 0.0) < s.count ==> DCum(s, result) > max(rank, 0.0) && DCum(s, result - 1) <= max(rank, 0.0)
 //@   ensures positive: max(rank, 0.0) < s.count ==> DView(s, result) > 0.0 && s.minIndex <= result && result <= s.maxIndex
 //@   ensures clamp: max(rank, 0.0) >= s.count ==> result == s.maxIndex
@@ -178,12 +178,12 @@ package store
 
 // Reweight: every bin and the count are multiplied by w (refused, with no change, for w <= 0).
 //@ func DenseStore.Reweight
-//@   serves C04 C16 C13
-//@   requires DInv(s)
+//@   serves C04 C16 C13 C05
+//@   requires DCore(s)
 //@   ensures refuse: w <= 0.0 ==> result != nil && s.count == old(s.count) && (forall k int :: DView(s, k) == old(DView(s, k)))
 //@   ensures ok: w > 0.0 ==> result == nil && s.count == w * old(s.count) && s.minIndex == old(s.minIndex) && s.maxIndex == old(s.maxIndex)
 //@   ensures view: w > 0.0 ==> (forall k int :: DView(s, k) == w * old(DView(s, k)))
-//@   ensures DInv(s)
+//@   ensures DCore(s) && (old(DInv(s)) ==> DInv(s))
 //@   modifies s.count, arr(s.bins)
 //@   loop 1 invariant s.minIndex <= idx && (s.minIndex <= s.maxIndex ==> idx <= s.maxIndex + 1) && w > 0.0 && s.count == w * old(s.count)
 //@   loop 1 invariant s.minIndex == old(s.minIndex) && s.maxIndex == old(s.maxIndex) && s.offset == old(s.offset) && s.bins == old(s.bins)
@@ -192,8 +192,8 @@ package store
 
 // ForEach: calls f exactly once for every index of positive weight, with that weight, until f asks to stop.
 //@ func DenseStore.ForEach
-//@   serves C04 C12 C14
-//@   requires DInv(s)
+//@   serves C04 C12 C14 C05
+//@   requires DCore(s)
 //@   ghost visited set := emptyset()
 //@   ghost stopped bool := false
 //@   callback f params index, count
@@ -204,9 +204,10 @@ package store
 //@   callback f ghost stopped := stop
 //@   ensures complete: stopped || (forall k int :: DView(s, k) > 0.0 ==> visited[k])
 //@   ensures sound: forall k int :: visited[k] ==> DView(s, k) > 0.0
-//@   ensures DInv(s) && s.count == old(s.count) && (forall k int :: DView(s, k) == old(DView(s, k)))
+//@   ensures DCore(s) && s.count == old(s.count) && s.minIndex == old(s.minIndex) && s.maxIndex == old(s.maxIndex) && s.offset == old(s.offset) && s.bins == old(s.bins) && (forall k int :: DView(s, k) == old(DView(s, k)))
+//@   ensures footprintStable(s) && sameobject(s)
 //@   modifies everything()
-//@   loop 1 invariant DInv(s) && s.count == old(s.count) && !stopped && s.minIndex <= idx && (s.minIndex <= s.maxIndex ==> idx <= s.maxIndex + 1)
+//@   loop 1 invariant sameobject(s) && DCore(s) && s.count == old(s.count) && s.minIndex == old(s.minIndex) && s.maxIndex == old(s.maxIndex) && s.offset == old(s.offset) && s.bins == old(s.bins) && !stopped && s.minIndex <= idx && (s.minIndex <= s.maxIndex ==> idx <= s.maxIndex + 1)
 //@   loop 1 invariant forall k int :: visited[k] <==> (s.minIndex <= k && k < idx && DView(s, k) > 0.0)
 //@   loop 1 invariant forall k int :: DView(s, k) == old(DView(s, k))
 
